@@ -512,7 +512,28 @@ func (rn *runner) GenOp(r *vh.Rand, i int) string {
 					sup = genSuppress(r, list)
 				}
 			}
-			return fmt.Sprintf("spec %s %d %s %s", base, r.Intn(2), sup, list)
+			// pin extension CONTENTS that differ from what the tls.Config (ServerName example.com, NextProtos h3) would
+			// give: the ClientHello has to carry the spec's values
+			pins := "-"
+			if r.Chance(45) {
+				var ps []string
+				if r.Chance(60) {
+					ps = append(ps, "sni="+[]string{"front.example.net", "a.b", "cdn-7.test", "x"}[r.Intn(4)])
+				}
+				if r.Chance(40) {
+					ps = append(ps, "alpn="+[]string{"h3-29", "h3|h3-29", "hq-interop|h3", "x"}[r.Intn(4)])
+				}
+				if r.Chance(40) {
+					ps = append(ps, fmt.Sprintf("grp=%d", 1+r.Intn(2)))
+				}
+				if r.Chance(30) {
+					ps = append(ps, "ks=rev")
+				}
+				if len(ps) > 0 {
+					pins = strings.Join(ps, ";")
+				}
+			}
+			return fmt.Sprintf("spec %s %d %s %s %s", base, r.Intn(2), sup, list, pins)
 		}
 		if r.Chance(22) {
 			return "tpids"
@@ -640,7 +661,7 @@ func (rn *runner) Exec(op string) string {
 			int64(tp.MaxUniStreamNum), int64(tp.MaxAckDelay), tp.ActiveConnectionIDLimit, int64(tp.MaxDatagramFrameSize),
 			dm, hx(tp.InitialSourceConnectionID.Bytes()), hx(tp.ClientOverride), hx(body), tokensOf(ext.TransportParameters))
 	case "spec":
-		if len(f) != 5 {
+		if len(f) != 5 && len(f) != 6 {
 			return "bad-op"
 		}
 		id, ok := builtins[f[1]]
@@ -664,6 +685,9 @@ func (rn *runner) Exec(op string) string {
 		}
 		spec.RandomizeTransportParameters = f[2] == "1"
 		spec.SuppressTransportParameters = parseIDs(f[3])
+		if len(f) == 6 && !applyPins(&spec, f[5]) {
+			return "bad-op"
+		}
 		rn.spec, rn.specID = &spec, id
 		return fmt.Sprintf("in=%s cs=%s want=%s scidlen=%d", tokensOf(ext.TransportParameters),
 			fmtU16(spec.ClientHelloSpec.CipherSuites), id.Fingerprint, spec.InitialPacketSpec.SrcConnIDLength)
@@ -676,6 +700,7 @@ func (rn *runner) Exec(op string) string {
 		if rn.spec == nil {
 			return "skip"
 		}
+		snap := snapshotSpec(rn.spec) // the spec's extension values as they are BEFORE the dial
 		d := rn.dial(rn.spec)
 		if d.err != "" {
 			return d.err
@@ -684,8 +709,9 @@ func (rn *runner) Exec(op string) string {
 		if d.hasOv {
 			ov = hx(d.ov)
 		}
-		return fmt.Sprintf("cs=%s exts=%s sexts=%s qtp=%s scid=%s frames=%s fp=%s rec=%s ov=%s after=%s", fmtU16(d.cs), fmtU16(d.exts),
-			fmtU16(specExtTypes(rn.spec)), hx(d.qtp), hx(d.scid), fmtIDs(d.frames), d.fp, d.rec, ov, tokensOf(qtpExt(rn.spec).TransportParameters))
+		return fmt.Sprintf("cs=%s exts=%s sexts=%s qtp=%s scid=%s frames=%s fp=%s rec=%s ov=%s snap=%s ssni=%s csni=%s sks=%s xb=%s wks=%s after=%s", fmtU16(d.cs), fmtU16(d.exts),
+			fmtU16(specExtTypes(rn.spec)), hx(d.qtp), hx(d.scid), fmtIDs(d.frames), d.fp, d.rec, ov,
+			snap.bodies, hx([]byte(snap.sni)), hx([]byte(dialServerName)), fmtU16(snap.ksGroups), wireBodies(d.bodies, snap.types), keyShareGroups(d.bodies), tokensOf(qtpExt(rn.spec).TransportParameters))
 	case "shufdist":
 		if len(f) != 3 {
 			return "bad-op"
@@ -859,6 +885,144 @@ type dialResult struct {
 	rec    string // the connection's own transport parameters as it logged them (qlog parameters_set, local)
 	ov     []byte // the connection's ClientOverride
 	hasOv  bool
+	bodies []extBody // every extension of the ClientHello, in wire order
+}
+
+type extBody struct {
+	typ  uint16
+	body []byte
+}
+
+const dialServerName = "example.com"
+
+// specSnapshot: what the spec says about the extensions whose content does not depend on the connection, taken
+// before a dial. Bodies are read from the spec's own extension values (uTLS's Len/Read are pure for these types).
+type specSnapshot struct {
+	bodies   string            // <type>:<body hex>,… for the connection-independent extensions
+	types    map[uint16]bool   // their types (plus server_name)
+	sni      string            // the spec's pinned server name ("" = take the tls.Config's)
+	ksGroups []uint16          // key_share: the groups, in order (keys are per connection)
+}
+
+func snapshotSpec(spec *quic.QUICSpec) (sn specSnapshot) {
+	sn.types = map[uint16]bool{0: true}
+	var parts []string
+	for _, e := range spec.ClientHelloSpec.Extensions {
+		switch x := e.(type) {
+		case *tls.SNIExtension:
+			sn.sni = x.ServerName
+			continue
+		case *tls.KeyShareExtension:
+			for _, k := range x.KeyShares {
+				sn.ksGroups = append(sn.ksGroups, uint16(k.Group))
+			}
+			continue
+		case *tls.QUICTransportParametersExtension, *tls.UtlsPaddingExtension, *tls.UtlsGREASEExtension,
+			*tls.GREASEEncryptedClientHelloExtension, *tls.UtlsPreSharedKeyExtension, *tls.FakePreSharedKeyExtension:
+			continue // per-connection content (checked elsewhere, or random by design)
+		}
+		func() {
+			defer func() { recover() }() //nolint:errcheck
+			n := e.Len()
+			if n < 4 {
+				return
+			}
+			b := make([]byte, n)
+			if _, err := e.Read(b); err != nil && err != io.EOF {
+				return
+			}
+			t := uint16(b[0])<<8 | uint16(b[1])
+			sn.types[t] = true
+			parts = append(parts, fmt.Sprintf("%d:%s", t, hx(b[4:])))
+		}()
+	}
+	sn.bodies = "-"
+	if len(parts) > 0 {
+		sn.bodies = strings.Join(parts, ",")
+	}
+	return sn
+}
+
+func wireBodies(bs []extBody, types map[uint16]bool) string {
+	var parts []string
+	for _, b := range bs {
+		if types[b.typ] {
+			parts = append(parts, fmt.Sprintf("%d:%s", b.typ, hx(b.body)))
+		}
+	}
+	if len(parts) == 0 {
+		return "-"
+	}
+	return strings.Join(parts, ",")
+}
+
+// keyShareGroups: `<group>:<key length>` of every entry of the key_share extension (51) on the wire.
+func keyShareGroups(bs []extBody) string {
+	for _, b := range bs {
+		if b.typ != 51 || len(b.body) < 2 {
+			continue
+		}
+		p := b.body[2:]
+		var parts []string
+		for len(p) >= 4 {
+			g := int(p[0])<<8 | int(p[1])
+			l := int(p[2])<<8 | int(p[3])
+			if len(p) < 4+l {
+				return "?"
+			}
+			parts = append(parts, fmt.Sprintf("%d:%d", g, l))
+			p = p[4+l:]
+		}
+		if len(parts) == 0 {
+			return "-"
+		}
+		return strings.Join(parts, ",")
+	}
+	return "-"
+}
+
+// applyPins rewrites extension contents of a freshly built spec: sni=<name>; alpn=<p|q>; grp=<k> (rotate the
+// supported groups by k); ks=rev (reverse the key shares).
+func applyPins(spec *quic.QUICSpec, pins string) bool {
+	if pins == "-" || pins == "" {
+		return true
+	}
+	for _, pin := range strings.Split(pins, ";") {
+		k, v, _ := strings.Cut(pin, "=")
+		for _, e := range spec.ClientHelloSpec.Extensions {
+			switch x := e.(type) {
+			case *tls.SNIExtension:
+				if k == "sni" {
+					x.ServerName = v
+				}
+			case *tls.ALPNExtension:
+				if k == "alpn" {
+					x.AlpnProtocols = strings.Split(v, "|")
+				}
+			case *tls.SupportedCurvesExtension:
+				if k == "grp" && len(x.Curves) > 1 {
+					n, err := strconv.Atoi(v)
+					if err != nil || n < 0 {
+						return false
+					}
+					n %= len(x.Curves)
+					x.Curves = append(append([]tls.CurveID(nil), x.Curves[n:]...), x.Curves[:n]...)
+				}
+			case *tls.KeyShareExtension:
+				if k == "ks" && v == "rev" {
+					for i, j := 0, len(x.KeyShares)-1; i < j; i, j = i+1, j-1 {
+						x.KeyShares[i], x.KeyShares[j] = x.KeyShares[j], x.KeyShares[i]
+					}
+				}
+			}
+		}
+		switch k {
+		case "sni", "alpn", "grp", "ks":
+		default:
+			return false
+		}
+	}
+	return true
 }
 
 // recTrace records the connection's transport:parameters_set event for its own parameters.
@@ -919,7 +1083,7 @@ func (rn *runner) dial(spec *quic.QUICSpec) (res dialResult) {
 			}
 			done <- ""
 		}()
-		tr.Dial(ctx, rn.server.LocalAddr(), &tls.Config{InsecureSkipVerify: true, ServerName: "example.com", NextProtos: []string{"h3"}}, conf) //nolint:errcheck
+		tr.Dial(ctx, rn.server.LocalAddr(), &tls.Config{InsecureSkipVerify: true, ServerName: dialServerName, NextProtos: []string{"h3"}}, conf) //nolint:errcheck
 	}()
 	defer func() {
 		cancel()
@@ -984,11 +1148,11 @@ func (rn *runner) dial(spec *quic.QUICSpec) (res dialResult) {
 			}
 		}
 		if ch := asm.clientHello(); ch != nil {
-			cs, exts, body, ok := splitClientHello(ch)
+			cs, exts, body, bodies, ok := splitClientHello(ch)
 			if !ok {
 				return dialResult{err: "E:chparse"}
 			}
-			res.cs, res.exts, res.qtp = cs, exts, body
+			res.cs, res.exts, res.qtp, res.bodies = cs, exts, body, bodies
 			break
 		}
 	}
@@ -1154,7 +1318,7 @@ func (a *reassembler) clientHello() []byte {
 }
 
 // splitClientHello: cipher suites, extension types in order, body of quic_transport_parameters (57).
-func splitClientHello(ch []byte) (cs, exts []uint16, qtp []byte, ok bool) {
+func splitClientHello(ch []byte) (cs, exts []uint16, qtp []byte, bodies []extBody, ok bool) {
 	defer func() {
 		if recover() != nil {
 			ok = false
@@ -1175,13 +1339,14 @@ func splitClientHello(ch []byte) (cs, exts []uint16, qtp []byte, ok bool) {
 		t := uint16(p[0])<<8 | uint16(p[1])
 		l := int(p[2])<<8 | int(p[3])
 		exts = append(exts, t)
+		bodies = append(bodies, extBody{t, append([]byte{}, p[4:4+l]...)})
 		if t == 57 && !found {
 			qtp = append([]byte{}, p[4:4+l]...)
 			found = true
 		}
 		p = p[4+l:]
 	}
-	return cs, exts, qtp, found
+	return cs, exts, qtp, bodies, found
 }
 
 func getenv(k, def string) string {
